@@ -3,7 +3,7 @@
     source with arbitrary short reads.  Only statements live here. *)
 From Coq Require Import List ZArith Bool.
 From V Require Import Gen.Params Lib.Hex Wire.Varint H3Stream.Model H3Stream.Proofs H3Stream.ProofsStream
-  H3Stream.ProofsExact H3Stream.ProofsBody H3Stream.ProofsTrunc H3Stream.ProofsSettings H3Stream.ProofsSched H3Stream.Conn H3Stream.ProofsConn H3Stream.ConnExamples H3Stream.E2E.
+  H3Stream.ProofsExact H3Stream.ProofsBody H3Stream.ProofsTrunc H3Stream.ProofsSettings H3Stream.ProofsSched H3Stream.Conn H3Stream.ProofsConn H3Stream.ConnExamples H3Stream.E2E H3Stream.E2EResponse H3Stream.ProofsTrailers.
 Import ListNotations.
 Open Scope Z_scope.
 
@@ -476,3 +476,87 @@ Theorem C18_one_request_end_to_end :
        (all_pos bufs -> (length body_wire < length bufs)%nat -> e = Some EEOF)).
 Proof. exact one_request_end_to_end. Qed.
 Print Assumptions C18_one_request_end_to_end.
+
+(** COMPOSITION, RESPONSE DIRECTION (round 6): ONE response end to end.  Hypotheses, all explicit:
+    the QPACK round trip [qdec (qenc fs) = fs]; the QUIC stream is the byte source of the model --
+    reliable, ordered, arbitrary chunking, clean FIN (C01/C03's contract); the handler's body
+    writes reach the stream as Stream.Write calls; sizes below 2^62.  Then the client
+    (1) obtains exactly the server's header block (ParseNext + io.ReadFull, every read schedule),
+    (2) builds a response with exactly the status the handler wrote, its Content-Length and every
+        header field as written (C19_writer_parser_agree_response / _response_headers),
+    (3a) reads exactly the body bytes the handler wrote, for every chunking on both sides,
+    (3b) the same through body.Read when the Content-Length of the body is declared: clean EOF,
+         nothing reset,
+    (3c) for responses that never carry content (HEAD; 1xx / 204 / 304): an empty body ends
+         cleanly whatever Content-Length was declared (C18_content_length_no_content_exempt).
+    _partial: response TRAILERS are not included (no HEADERS-after-DATA frame in [wframe];
+    C19_writer_decode_agree would supply the field agreement); concurrency, loss below the stream
+    contract, gzip and 1xx sequencing remain monitor-only (h3e2e, h3sim). *)
+Theorem C18_one_response_end_to_end_partial :
+  forall (qenc : list HM.field -> list Z) (qdec : list Z -> list HM.field),
+  (forall fs, qdec (qenc fs) = fs) ->
+    forall (status : Z) (h : WM.gomap) (lim : Z) (chunks : list (list Z))
+           (sched : list Z) (fw : bool) (maxHdr : Z) (bufs : list Z),
+    100 <= status <= 999 -> 0 <= lim -> HS.section_size (WM.rsp_fields status h) <= lim ->
+    let block := qenc (WM.rsp_fields status h) in
+    zlen block <= maxVarInt8 -> Forall (fun b => zlen b <= maxVarInt8) chunks ->
+    let body_wire := concat (x_written (stream_writes (new_stream (mkSrc [] [] EEOF false) 0) chunks)) in
+    let response_wire := vappend 1 ++ vappend (zlen block) ++ block ++ body_wire in
+    (* 1. what RequestStream.ReadResponse does first: ParseNext delivers the HEADERS frame with the
+          block's length, io.ReadFull of that many bytes delivers exactly the server's block and
+          leaves the stream at the first body frame -- for every short-read schedule *)
+    (exists hl s1 s2,
+       parse_next (S (length response_wire)) (mkSrc response_wire sched EEOF fw) None
+         = (inr (FHeaders (zlen block) hl), s1, None) /\
+       read_full (fuel_of s1) s1 (zlen block) [] = (inr block, s2) /\ s_data s2 = body_wire) /\
+    (* 2. the *http.Response built from the block: exactly the status the handler wrote, the declared
+          Content-Length, and every header field as written (C19, unconditional) *)
+    (exists r, HM.updateResponseFromHeaders lim (qdec block) false = inr r /\
+       HM.rsCode r = status /\ HM.rsCL r = HM.hCL (HS.hdr_of (WM.rsp_fields status h)) /\
+       (forall n, HM.token_ok n = true -> HM.lower_ok n = true ->
+                  n <> V.H3Stream.E2EStrings.n_content_length -> n <> V.H3Stream.E2EStrings.n_trailer ->
+                  HM.hget (HM.canon n) (HM.rsHeader r) = WE.opt_values (WE.rsp_expected h n))) /\
+    (* 3a. the body the client reads is the body the handler wrote, for every chunking on both sides
+           (no Content-Length needed) *)
+    (exists out e x' tl,
+       stream_reads (new_stream (mkSrc body_wire sched EEOF fw) maxHdr) bufs = (out, e, x') /\
+       concat chunks = out ++ tl /\ (e = None \/ (e = Some EEOF /\ tl = [])) /\
+       (all_pos bufs -> (length body_wire < length bufs)%nat -> e = Some EEOF)) /\
+    (* 3b. with the Content-Length of the body declared: the same through body.Read, clean EOF,
+           neither direction reset *)
+    (forall nc, exists out e b' tl,
+       body_reads (new_body (new_stream (mkSrc body_wire sched EEOF fw) maxHdr) (zlen (concat chunks)) nc) bufs = (out, e, b') /\
+       concat chunks = out ++ tl /\ (e = None \/ (e = Some EEOF /\ tl = [])) /\ b_cancels b' = [] /\
+       (all_pos bufs -> (length body_wire < length bufs)%nat -> e = Some EEOF)) /\
+    (* 3c. responses that never carry content (to HEAD; 1xx, 204, 304): whatever Content-Length the
+           handler declared, an empty body ends with a clean EOF and nothing is reset *)
+    (chunks = [] -> forall cl, 0 <= cl -> exists e b',
+       body_reads (new_body (new_stream (mkSrc body_wire sched EEOF fw) maxHdr) cl true) bufs = ([], e, b') /\
+       (e = None \/ e = Some EEOF) /\ b_cancels b' = [] /\
+       (all_pos bufs -> (0 < length bufs)%nat -> e = Some EEOF)).
+Proof. exact one_response_end_to_end_partial. Qed.
+Print Assumptions C18_one_response_end_to_end_partial.
+
+(** TRAILERS at the stream level (round 6; closes the "no trailers" gap of C18_data_exact for one
+    trailer section): DATA / ignorable frames, then ONE HEADERS frame (any accepted varint encoding,
+    block within the header limit), then FIN.  For every short-read schedule and buffer sequence:
+    the reads return a prefix of the DATA payloads; the trailer block reaches the trailer callback
+    only after ALL payload bytes, exactly once and byte for byte; the only error is io.EOF and then
+    body and trailers are complete; the connection is not closed.  (With the QPACK round trip,
+    C19_writer_decode_agree turns the block into exactly the trailer fields the writer emitted.) *)
+Theorem C18_data_exact_with_trailers :
+  forall (fs : list wframe) (th lh blk : list Z) (sched : list Z) (fw : bool) (maxHdr : Z) (bufs : list Z),
+  Forall wf_frame fs -> venc th 1 -> venc lh (zlen blk) -> zlen blk <= maxHdr ->
+  exists out e x' tl,
+    stream_reads (new_stream (mkSrc (wire fs ++ trailer_enc th lh blk) sched EEOF fw) maxHdr) bufs = (out, e, x') /\
+    payload fs = out ++ tl /\ x_closed x' = None /\
+    ((e = None /\ (x_trailers x' = [] \/ (tl = [] /\ x_trailers x' = [blk]))) \/
+     (e = Some EEOF /\ tl = [] /\ x_trailers x' = [blk])).
+Proof. exact data_exact_with_trailers. Qed.
+Print Assumptions C18_data_exact_with_trailers.
+
+Example C18_example_trailers :
+  let '(out, e, x') := stream_reads (new_stream (mkSrc ([0; 2; 8; 9] ++ trailer_enc [1] [3] [170; 187; 204]) [1; 1; 2] EEOF true) 64) [1; 5; 5; 5] in
+  out = [8; 9] /\ e = Some EEOF /\ x_trailers x' = [[170; 187; 204]] /\ x_closed x' = None.
+Proof. vm_compute. auto. Qed.
+Print Assumptions C18_example_trailers.
